@@ -231,6 +231,9 @@ class RectilinearGrid(StructuredGrid):
     def data_location(self, data_location):
         """Set location of the associated data (either CELLS or POINTS)."""
         self._data_location = _check_location(self, data_location)
+        # shape and size depend on the location: drop the memoised values
+        self._data_shape = None
+        self._data_size = None
 
 
 class UniformGrid(RectilinearGrid):
